@@ -31,6 +31,7 @@ ASSUMPTIONS = [
 
 LINKS = ["direct", "calc", "tcalc", "wvar", "calc2", "kw", "mixed"]
 VN = ["zv0", "mv1", "av2"]  # variable names: children sort before their parents
+DISTNAME = {1: "user_named_prior"}  # the distribution node of v1 carries a user-chosen name
 FN = {"neg": lambda x: -x, "twice": lambda x: 2.0 * x, "half": lambda x: 0.5 * x}
 
 
@@ -166,16 +167,16 @@ def build(case, log):
                 comb = lsl.Calc(lambda a, b: a + 4.0 * jnp.sum(b), node, extra, _name="comb")
                 h["link_nodes"].append((comb, [node, extra], None))
                 base = lambda *a, _k=k, **kws: Rec(VN[_k], log, tfd.Deterministic, *a, **kws)  # noqa
-                dist = lsl.Dist(base, loc=comb)
+                dist = lsl.Dist(base, loc=comb, _name=DISTNAME.get(k, ""))
                 reffn.append(("det-diamond", f, None))
             else:
                 if kw == "mixed":
                     det = lambda dummy, loc: tfd.Deterministic(loc=loc)  # noqa  positional constant, keyword loc
                     base = lambda *a, _k=k, **kws: Rec(VN[_k], log, det, *a, **kws)  # noqa
-                    dist = lsl.Dist(base, lsl.Value(jnp.float32(7.0), _name=f"dummy{k}"), loc=node)
+                    dist = lsl.Dist(base, lsl.Value(jnp.float32(7.0), _name=f"dummy{k}"), loc=node, _name=DISTNAME.get(k, ""))
                 else:
                     base = lambda *a, _k=k, **kws: Rec(VN[_k], log, tfd.Deterministic, *a, **kws)  # noqa
-                    dist = lsl.Dist(base, loc=node) if kw else lsl.Dist(base, node)
+                    dist = lsl.Dist(base, loc=node, _name=DISTNAME.get(k, "")) if kw else lsl.Dist(base, node, _name=DISTNAME.get(k, ""))
                 reffn.append(("det", f, None))
         init = jnp.full(shp, jnp.float32(0.25) * (k + 1))
         if case.get("int_init") and k == 0:
@@ -193,6 +194,7 @@ def build(case, log):
 
 def run_case(res, case, seeds):
     import jax
+    import jax.numpy as jnp
     import numpy as np
 
     n = len(case["links"])
@@ -202,7 +204,7 @@ def run_case(res, case, seeds):
     def skip_names(subset, style):
         out = []
         for k in subset:
-            out.append({"var": VN[k], "dist": f"{VN[k]}_log_prob", "proxy": f"{VN[k]}_var_value"}[style])
+            out.append({"var": VN[k], "dist": DISTNAME.get(k, f"{VN[k]}_log_prob"), "proxy": f"{VN[k]}_var_value"}[style])
         return out
 
     for r in range(n + 1):
@@ -212,17 +214,26 @@ def run_case(res, case, seeds):
                 skip = skip_names(subset, style)
                 results = {}
                 for auto in (True, False):
-                    for stale in (False, True):
-                        for s in seeds:
+                    for stale in (False, True, "restored"):
+                        for s in (seeds[:1] if stale == "restored" else seeds):
                             key = jax.random.PRNGKey(s)
                             log = []
                             m, h = build(case, log)
                             vs = h["vs"]
                             mu_val = np.float32(0.5)
-                            if stale:
+                            if stale is True:
                                 m.auto_update = False
                                 h["mu"].value = np.float32(3.0)
                                 mu_val = np.float32(3.0)
+                            elif stale == "restored":
+                                # the model visited other values and was put back with Model.state:
+                                # nothing of the intermediate state may survive
+                                saved = m.state
+                                h["mu"].value = np.float32(40.0)
+                                for kk, v in enumerate(vs):
+                                    v.value = jnp.full(np.shape(v.value), 50.0 + kk, dtype=jnp.asarray(v.value).dtype)
+                                m.update()
+                                m.state = saved
                             m.auto_update = auto
                             before = [np.asarray(v.value).copy() for v in vs]
                             log.clear()
@@ -326,7 +337,7 @@ def run_case(res, case, seeds):
                             res.outcome(len(case["links"]), tuple(subset), auto, stale, tuple(bool(not np.array_equal(a, b)) for a, b in zip(after, before)))
 
                 # same seed => same result under both auto-update settings
-                for stale in (False, True):
+                for stale in (False, True, "restored"):
                     for s in seeds:
                         a, b = results.get((True, stale, s)), results.get((False, stale, s))
                         if a is not None and b is not None and not all(np.array_equal(x, y) for x, y in zip(a, b)):
